@@ -91,6 +91,10 @@ def convert_output_data(obj, limit_func, engine, rec=None):
             result[rec(key, limit_func, engine, rec)] = rec(
                 value, limit_func, engine, rec)
         return result
+    elif isinstance(obj, (collections.abc.KeysView, collections.abc.ItemsView)):
+        # keys() / items() of a dictionary: set-like views whose plain form
+        # is the list of keys / of [key, value] pairs
+        return list(rec(t, limit_func, engine, rec) for t in limit_func(obj))
     elif isinstance(obj, SetType):
         set_type = list if convert_sets_to_lists(engine) else set
         return set_type(rec(t, limit_func, engine, rec)
